@@ -52,8 +52,26 @@ fn main() {
         "replay" => {
             let text = std::fs::read_to_string(&args[2]).expect("replay file");
             let j: serde_json::Value = serde_json::from_str(&text).expect("replay json");
-            let p = find(j["property"].as_str().unwrap_or(""));
             let tier = Tier::parse(j["tier"].as_str().unwrap_or("quick")).unwrap();
+            match j["property"].as_str().unwrap_or("") {
+                "C19" => {
+                    // one probe: the recorded operation at the recorded depth
+                    let c = &j["case"];
+                    let exe = std::env::current_exe().unwrap();
+                    let st = std::process::Command::new("sh").arg("-c").arg("ulimit -s 8192 2>/dev/null; exec \"$0\" \"$@\"").arg(&exe).arg("stackprobe")
+                        .arg(c["op"].as_str().unwrap_or("")).arg(c["construct"].as_str().unwrap_or("")).arg(c["depth"].to_string()).arg(c["stack"].as_str().unwrap_or("main-8MiB")).status().expect("probe");
+                    println!("probe {} {} depth {} on {}: {st}", c["op"], c["construct"], c["depth"], c["stack"]);
+                    if st.success() || st.code() == Some(3) {
+                        println!("replay: the probe completes on the current tree");
+                        std::process::exit(0);
+                    }
+                    println!("VIOLATION property=C19 replay={}", args[2]);
+                    std::process::exit(1);
+                }
+                "C18" => std::process::exit(c18::drive(tier)),
+                _ => {}
+            }
+            let p = find(j["property"].as_str().unwrap_or(""));
             let seed = j["seed"].as_u64().unwrap_or(1);
             let n = j["nshards"].as_u64().unwrap_or(16) as usize;
             let shard = j["case"]["shard"].as_u64().unwrap_or(0) as usize;
